@@ -247,7 +247,7 @@ func (m *c10Mon) Observe(pre, post *cdpSnap, e *cdpEvent) {
 						recv = nil // the owner's remainder lands on the same account: not separable
 					}
 				}
-				m.bidLaws(awaitKey{1, x.AuctionId}, paid, recv, new(big.Int), decRat(a.OutflowTokenCurrentPrice), decRat(a.InflowTokenCurrentPrice), u.byID[a.AssetOutId], u.byID[a.AssetInId], e, "gen1")
+				m.bidLaws(awaitKey{1, x.AuctionId}, paid, recv, new(big.Int), decRat(a.OutflowTokenCurrentPrice), decRat(a.InflowTokenCurrentPrice), u.byID[a.AssetOutId], u.byID[a.AssetInId], e, "gen1", 1)
 			}
 		case *auctionsV2types.MsgPlaceMarketBidRequest:
 			a, ok := pre.AucV2[x.AuctionId]
@@ -261,9 +261,12 @@ func (m *c10Mon) Observe(pre, post *cdpSnap, e *cdpEvent) {
 						recv = nil // the owner's remainder lands on the same account: not separable
 					}
 					if e.Signer.Addr.String() == lv.InternalKeeperAddress || e.Signer.Addr.String() == lv.ExternalKeeperAddress {
-						// the keeper incentive / initiator proceeds land on the bidder's account: payment not separable
-						m.rec.Count("bids_by_keeper_not_price_checked", 1)
-						break
+						// the keeper incentive / initiator proceeds land on the bidder's account: the payment is taken
+						// from the records (remaining debt less what the app reserve contributed; the close-out
+						// ledger asserts the bidder's balance against exactly that)
+						rl := modLabel(liqV2types.ModuleName)
+						paid = bigSub(a.DebtToken.Amount.BigInt(), bigSub(pre.bal(rl, dd), post.bal(rl, dd)))
+						m.rec.Count("bids_by_keeper_price_checked_via_records", 1)
 					}
 				}
 				// the debt coin buys at the higher of the posted debt price and the oracle price in force ($1 for CMST-flagged debt)
@@ -273,8 +276,21 @@ func (m *c10Mon) Observe(pre, post *cdpSnap, e *cdpEvent) {
 				} else if tw := new(big.Rat).SetInt(new(big.Int).SetUint64(pre.Price[a.DebtAssetId])); tw.Cmp(debtPrice) > 0 {
 					debtPrice = tw
 				}
-				m.bidLaws(awaitKey{2, x.AuctionId}, paid, recv, a.BonusAmount.BigInt(), decRat(a.CollateralTokenAuctionPrice), debtPrice, u.byID[a.CollateralAssetId], u.byID[a.DebtAssetId], e, "gen2-"+lv.InitiatorType)
+				m.bidLaws(awaitKey{2, x.AuctionId}, paid, recv, a.BonusAmount.BigInt(), decRat(a.CollateralTokenAuctionPrice), debtPrice, u.byID[a.CollateralAssetId], u.byID[a.DebtAssetId], e, "gen2-"+lv.InitiatorType, 1)
 			}
+		}
+	}
+	if x, ok := e.Msg.(*auctionsV2types.MsgPlaceMarketBidRequest); ok && e.Kind == "tx" && !e.Res.OK() && strings.Contains(e.Res.Log, "recovered") {
+		// a bid that panics is rejected as a whole; the statement does not promise that a bid succeeds
+		if a, ok := pre.AucV2[x.AuctionId]; ok {
+			why := e.Res.Log[strings.Index(e.Res.Log, "recovered"):]
+			if i := strings.IndexByte(why, '\n'); i > 0 {
+				why = why[:i]
+			}
+			if i := strings.IndexAny(why, "-0123456789"); i > 0 {
+				why = strings.TrimRight(why[:i], ": ")
+			}
+			m.rec.Count("bids_rejected_by_panic_gen2-"+pre.LockedV2[a.LockedVaultId].InitiatorType+" ("+why+")", 1)
 		}
 	}
 	// ---- (d) posted price: non-increasing between restarts, within [end, start], start <= oracle*premium
@@ -323,6 +339,9 @@ func (m *c10Mon) Observe(pre, post *cdpSnap, e *cdpEvent) {
 			m.rec.Violate("C10/price/gen1/posted-price-increased-between-restarts", fmt.Sprintf("%s -> %s", a.OutflowTokenCurrentPrice, b.OutflowTokenCurrentPrice), map[string]interface{}{"event": e.String(), "auction": id})
 		}
 	}
+	// ---- (d2) close-out ledger of the auctions that ended in this event; automatic limit-bid fills
+	m.closeout(pre, post, e)
+	depositLaw(u, m.rec, "C10", pre, post, e)
 	// ---- (e) closed auctions: totals
 	var closed []awaitKey
 	for k := range m.led {
@@ -345,7 +364,8 @@ func (m *c10Mon) Observe(pre, post *cdpSnap, e *cdpEvent) {
 }
 
 // bidLaws: cumulative paid <= target, cumulative received <= seized, and the exchange rate of this bid.
-func (m *c10Mon) bidLaws(k awaitKey, paid, recv, bonus *big.Int, collPrice, debtPrice *big.Rat, coll, debt *uAsset, e *cdpEvent, tag string) {
+// n is the number of separately rounded exchanges the amounts aggregate (1 for a bid transaction).
+func (m *c10Mon) bidLaws(k awaitKey, paid, recv, bonus *big.Int, collPrice, debtPrice *big.Rat, coll, debt *uAsset, e *cdpEvent, tag string, n int64) {
 	l := m.led[k]
 	m.rec.Eval(1)
 	m.rec.Count("bids_checked_"+tag, 1)
@@ -377,18 +397,18 @@ func (m *c10Mon) bidLaws(k awaitKey, paid, recv, bonus *big.Int, collPrice, debt
 	// received <= (paid + 1 + bonus) * debtPrice/debtDec / collPrice * collDec + 1
 	// ("up to one smallest unit of rounding": the payment is truncated to whole debt units and
 	// the collateral to whole collateral units, so one unit of each coin is granted)
-	v := new(big.Rat).SetFrac(bigAdd(bigAdd(paid, big.NewInt(1)), bonus), debt.Dec)
+	v := new(big.Rat).SetFrac(bigAdd(bigAdd(paid, big.NewInt(n)), bonus), debt.Dec)
 	v.Mul(v, debtPrice)
 	v.Quo(v, collPrice)
 	v.Mul(v, new(big.Rat).SetInt(coll.Dec))
-	v.Add(v, big.NewRat(1, 1))
+	v.Add(v, big.NewRat(n, 1))
 	if new(big.Rat).SetInt(recv).Cmp(v) > 0 {
 		m.rec.Violate("C10/bid/"+tag+"/received-more-than-paid-plus-bonus-buys-at-posted-price", fmt.Sprintf("received %s, at the posted price the payment (plus bonus) buys at most %s", recv, v.FloatString(3)), det())
 	}
 }
 
 func TestC10(t *testing.T) {
-	rec := ev.New("C10", "exploration", "the liquidation workload plus 8 bidders issuing tiny / partial / exact / oversized bids on Dutch auctions of both generations at random offsets relative to price updates and restarts (block gaps up to 2 h against a 1 h auction duration), limit bids filled automatically, oracle moves during auctions; custody identity of both auction accounts after every event, cumulative and per-bid exchange laws, posted-price laws. distinct = (op, outcome, live auctions per generation, context)")
+	rec := ev.New("C10", "exploration", "the liquidation workload plus 8 bidders issuing tiny / partial / exact / oversized bids on Dutch auctions of both generations at random offsets relative to price updates and restarts (block gaps up to 2 h against a 1 h auction duration), limit bids filled automatically, oracle moves during auctions; externally initiated auctions (anyone hands in collateral and names a debt coin; bonus and penalty from the auction params) for two whitelisted apps; custody identity of both auction accounts after every event, cumulative and per-bid exchange laws (bid transactions and automatic limit-bid fills), posted-price laws, and for every generation-2 vault / external auction that ends (closing bid, closing fill, emergency-shutdown hand-back) the close-out ledger: balance deltas of every account, supply and booked fees against burned principal / initiator, penalty, keeper incentive, owner remainder. distinct = (op, outcome, live auctions per generation, context)")
 	defer finish(t, rec)
 	runs := ev.Pick(2, 4)
 	for run := 0; run < runs; run++ {
@@ -417,4 +437,16 @@ func TestC10(t *testing.T) {
 	rec.Floor("bids_checked_gen2-vault", 10)
 	rec.Floor("bids_checked_gen1", 3)
 	rec.Floor("price_updates_observed_gen2", 20)
+	rec.Floor("auctions_opened_gen2_external", 20)
+	rec.Floor("bids_checked_gen2-external", 20)
+	rec.Floor("bids_checked_gen2-vault-fill", 3)
+	rec.Floor("closeouts_checked_gen2-vault_bid", 10)
+	rec.Floor("closeouts_checked_gen2-external_bid", 5)
+	rec.Floor("closeouts_checked_gen2-vault_fill", 3)
+	rec.Floor("closeouts_checked_gen2-external_fill", 2)
+	rec.Floor("closeout_collector_checked", 20)
+	rec.Floor("closeout_keeper_incentives_expected_vault", 2)
+	rec.Floor("fill_deposit_law_checked", 10)
+	rec.Assume("close-out ledger: in a block without user transactions the only payments to user accounts in a debt denom are auction proceeds (keeper incentive, external initiator) and surplus-auction lots; the collector / supply part of a block's close-out is skipped (counted) when lockers exist or the emergency-shutdown redemption burns the collector's fees in the same block")
+	rec.Assume("the posted price of a closing automatic fill is read from the auction's historical record (the record the fill worked on); a closing bid that panics is rejected as a whole and is not judged (counted as bids_rejected_by_panic_*)")
 }
